@@ -110,14 +110,19 @@ Lemma round_keeps_items p e groups :
   snd (round_items p e groups) = groups /\
   (fst (round_items p e groups) = total_items groups \/ fst (round_items p e groups) = 0).
 Proof.
-  intros Hc Hi. unfold round_items. destruct p as [|tf]; cbn [reconnect_subs fst map].
-  - split; [reflexivity | right; reflexivity].
-  - unfold restore_all. cbn [fst map]. unfold restore_one, recreate. rewrite Hc, Hi.
-    destruct (tf || negb (se_transfer_ok e)); cbn [fst].
-    + split; [reflexivity | left; reflexivity].
-    + destruct (se_republish_ok e); cbn [fst].
-      * split; [reflexivity | right; reflexivity].
-      * split; [reflexivity | left; reflexivity].
+  intros Hc Hi. unfold round_items.
+  assert (H : forall tf e', se_create_ok e' = true -> se_items_ok e' = true -> se_items_ok e' = se_items_ok e ->
+           let f := fst (restore_one tf e') in
+           (match f with Recreated _ => (total_items groups, if se_items_ok e then groups else []) | Lost => (0, []) | _ => (0, groups) end)
+           = (total_items groups, groups) \/
+           (match f with Recreated _ => (total_items groups, if se_items_ok e then groups else []) | Lost => (0, []) | _ => (0, groups) end)
+           = (0, groups)).
+  { intros tf e' Hc' Hi' He. unfold restore_one, recreate. rewrite Hc', Hi'.
+    destruct (tf || negb (se_transfer_ok e')); cbn; [rewrite Hi; left; reflexivity|].
+    destruct (se_republish_ok e'); cbn; [right; reflexivity | rewrite Hi; left; reflexivity]. }
+  destruct p as [|tf]; cbn [reconnect_subs fst map restore_all].
+  - destruct (H false (kept_env e) Hc Hi eq_refl) as [E|E]; cbn in E |- *; rewrite E; cbn; split; auto.
+  - destruct (H tf e Hc Hi eq_refl) as [E|E]; cbn in E |- *; rewrite E; cbn; split; auto.
 Qed.
 
 Lemma rounds_keep_items : forall k p e groups,
@@ -131,4 +136,50 @@ Proof.
   destruct (IH p e groups Hc Hi) as [H3 H4].
   destruct (rounds_items k p e groups) as [reqs gk]. cbn in *. split; [exact H3|].
   intros r [<-|Hr]; [exact H2 | apply H4; exact Hr].
+Qed.
+
+(* a subscription whose restore succeeded (republished, or recreateSubscription returned nil) is counted in activeSubs *)
+Lemma restored_counts tf e : snd (restore_one tf e) = true -> 1 <= active_one tf e.
+Proof.
+  unfold restore_one, active_one.
+  destruct (tf || negb (se_transfer_ok e)).
+  - intros H. rewrite H. apply le_n.
+  - destruct (se_republish_ok e); cbn; intros H; [apply le_n | rewrite H; auto with arith].
+Qed.
+
+Lemma active_sum_ge tf (f : sub_env -> sub_env) es e :
+  In e es -> 1 <= active_one tf (f e) -> 1 <= fold_right (fun e n => active_one tf (f e) + n) 0 es.
+Proof.
+  induction es as [|x t IH]; intros Hin Hge; [contradiction|]. cbn.
+  destruct Hin as [->|Hin]; [lia | specialize (IH Hin Hge); lia].
+Qed.
+
+(* every notification handed to the application - by Publish or by Republish - is in the pending list right after *)
+Lemma publish_step_placed pending r a : snd (publish_step pending r) = Some a -> In a (fst (publish_step pending r)).
+Proof.
+  unfold publish_step. destruct (pr_known r); [|cbn; discriminate]. destruct (pr_data r); cbn; [|discriminate].
+  intros H. injection H as <-. apply in_or_app. right. left. reflexivity.
+Qed.
+
+Lemma ev_step_placed pending e a : snd (ev_step pending e) = Some a -> In a (fst (ev_step pending e)).
+Proof.
+  destruct e as [r|sb sq]; cbn.
+  - apply publish_step_placed.
+  - intros H. injection H as <-. apply in_or_app. right. left. reflexivity.
+Qed.
+
+Lemma ev_delivered_placed : forall h pending a,
+  In a (ev_delivered pending h) -> exists acks, In acks (ev_requests pending h) /\ In a acks.
+Proof.
+  unfold ev_delivered, ev_requests.
+  induction h as [|e rest IH]; intros pending a H; cbn in H; [contradiction|].
+  fold (ev_step pending e) in *.
+  assert (Hrest : In a (ev_delivered_gen true (fst (ev_step pending e)) rest) ->
+                  exists acks, In acks (ev_requests_gen true pending (e :: rest)) /\ In a acks).
+  { intros H'. destruct (IH _ _ H') as [acks [H1 H2]]. exists acks. split; [right; exact H1 | exact H2]. }
+  destruct (snd (ev_step pending e)) as [b|] eqn:E; [|apply Hrest; exact H].
+  destruct H as [<-|H]; [|apply Hrest; exact H].
+  exists (fst (ev_step pending e)). split.
+  - cbn. right. fold (ev_step pending e). destruct rest; cbn; left; reflexivity.
+  - apply ev_step_placed. exact E.
 Qed.
